@@ -12,6 +12,7 @@ import (
 	"encoding/hex"
 	"encoding/json"
 	"fmt"
+	"os"
 	"sort"
 	"sync"
 
@@ -68,9 +69,12 @@ type VUniverse struct {
 	ids     []string
 }
 
+// eventLogOff: run this process with config.DefConfig.Common.EnableEventLog = false (VERIF_EVENTLOG=0).
+func eventLogOff() bool { return os.Getenv("VERIF_EVENTLOG") == "0" }
+
 func newVUniverse(mode string, addrs, init, ids []string, seed uint64) *VUniverse {
 	config.DefConfig.P2PNode.NetworkId = config.NETWORK_ID_MAIN_NET
-	config.DefConfig.Common.EnableEventLog = true
+	config.DefConfig.Common.EnableEventLog = !eventLogOff()
 	rng := vio.NewRNG(seed*104729 + 7)
 	v := &VUniverse{mode: mode, accts: map[string]*account.Account{}, nameOf: map[string]string{}, msgs: map[string]*Msg{},
 		subj: map[string][]byte{}, sigs: map[string][]byte{}, init: init, ids: ids}
@@ -442,6 +446,9 @@ func votesRecord(mode string, ntraces, length int) {
 		n := 1 + (tr+int(vio.Seed()))%10
 		init := subset(n)
 		v := newVUniverse(mode, append(append([]string{}, pool...), outs...), init, ids, vio.Seed()+uint64(tr))
+		if os.Getenv("VERIF_EVENTLOG") == "" {
+			config.DefConfig.Common.EnableEventLog = tr%2 == 0 // both node configurations
+		}
 		r := v.newRun()
 		vio.Emit(map[string]interface{}{"ev": "reset", "cons": init, "id": "", "a": "", "err": false, "rel": false})
 		var past []string
